@@ -50,6 +50,8 @@ type kindT struct {
 	// Masked: the subscription has a read mask that keeps the tracked field (default_int32) and drops the
 	// rest of the message (default_string, which every written message carries)
 	Masked bool `json:"masked"`
+	// Inc: the subscription carries the include predicate "the value is odd"
+	Inc bool `json:"inc"`
 }
 type stepT struct {
 	A string `json:"a"`
@@ -347,6 +349,9 @@ func (t target) pull(ctx context.Context, k kindT) subscription {
 	ro := []resource.ReadOption{resource.WithBackpressure(!k.Lossy), resource.WithUpdatesOnly(k.Uo)}
 	if k.Masked {
 		ro = append(ro, resource.WithReadPaths(&testproto.TestAllTypes{}, "default_int32"))
+	}
+	if k.Inc {
+		ro = append(ro, resource.WithInclude(func(_ string, m proto.Message) bool { v := val(m); return v != absent && v%2 == 1 }))
 	}
 	if t.val != nil {
 		return subscription{vch: t.val.Pull(ctx, ro...)}
